@@ -1,6 +1,8 @@
 // Correspondence harness of C04 / C05 / C20 (structure of the document built from XML / XTA, and the XML writer).
 //
 // Protocol (stdin):   <op> <id> <nbytes>\n<bytes>\n        op = xml | xta | write
+//   (xmlf / xtaf: the same text through the file entry points parse_XML_file / parse_XTA(FILE*); a trailing 0 -- xml0, xta0, xmlf0,
+//    xtaf0 -- reads it in the 3.x syntax, newxta = false)
 // Output (stdout):    BEGIN <id> <op> / ... lines ... / END <id>
 //   xml, xta : TRACE lines (structural ParserBuilder callbacks as seen by a logging DocumentBuilder, with the
 //              expression stack at the calls that consume it), then the canonical dump of the Document built through
@@ -235,17 +237,43 @@ std::string dumpStr(Document& doc)
     return o.str();
 }
 
+// the text as a file: the file entry points must give what the buffer entry points give
+struct TextFile
+{
+    FILE* f;
+    explicit TextFile(const std::string& text): f{tmpfile()}
+    {
+        if (!f) throw std::runtime_error("tmpfile failed");
+        if (!text.empty() && fwrite(text.data(), 1, text.size(), f) != text.size()) throw std::runtime_error("fwrite failed");
+        fflush(f);
+        rewind(f);
+    }
+    ~TextFile() { fclose(f); }
+    std::string path() const { return "/proc/self/fd/" + std::to_string(fileno(f)); }
+};
+
+static bool isParseOp(const std::string& op)
+{
+    static const char* ops[] = {"xml", "xta", "xml0", "xta0", "xmlf", "xtaf", "xmlf0", "xtaf0"};
+    for (auto* o : ops) if (op == o) return true;
+    return false;
+}
+
 void opParse(const std::string& op, const std::string& text)
 {
+    // a trailing 0: the 3.x syntax (newxta = false); xmlf / xtaf: through parse_XML_file / parse_XTA(FILE*)
+    const bool nx = op.back() != '0';
+    const std::string fmt = nx ? op : op.substr(0, op.size() - 1);
     std::string tracedDump;
     {
         Document doc;
         TraceBuilder tb(doc, std::cout);
         try {
-            // xml0 / xta0: the 3.x syntax (newxta = false)
-            const bool nx = op != "xml0" && op != "xta0";
-            if (op == "xml" || op == "xml0") parse_XML_buffer(text.c_str(), static_cast<ParserBuilder*>(&tb), nx);
-            else parse_XTA(text.c_str(), static_cast<ParserBuilder*>(&tb), nx);
+            auto* pb = static_cast<ParserBuilder*>(&tb);
+            if (fmt == "xml") parse_XML_buffer(text.c_str(), pb, nx);
+            else if (fmt == "xmlf") { TextFile tf(text); parse_XML_file(tf.path().c_str(), pb, nx); }
+            else if (fmt == "xtaf") { TextFile tf(text); parse_XTA(tf.f, pb, nx); }
+            else parse_XTA(text.c_str(), pb, nx);
         } catch (std::exception& ex) {
             std::cout << "TRACE-EXCEPTION " << vh::quote(ex.what()) << "\n";
         }
@@ -254,8 +282,9 @@ void opParse(const std::string& op, const std::string& text)
     }
     Document doc;
     try {
-        const bool nx = op != "xml0" && op != "xta0";
-        if (op == "xml" || op == "xml0") parse_XML_buffer(text.c_str(), &doc, nx);
+        if (fmt == "xml") parse_XML_buffer(text.c_str(), &doc, nx);
+        else if (fmt == "xmlf") { TextFile tf(text); parse_XML_file(tf.path().c_str(), &doc, nx); }
+        else if (fmt == "xtaf") { TextFile tf(text); parse_XTA(tf.f, &doc, nx); }
         else parse_XTA(text.c_str(), &doc, nx);
     } catch (std::exception& ex) {
         std::cout << "EXCEPTION " << vh::quote(ex.what()) << "\n";
@@ -391,7 +420,12 @@ void docGraph(Document& doc)
                       << " guard=" << (e.guard.empty() ? std::string("-") : vh::quote(e.guard.str()))
                       << " sync=" << (e.sync.empty() ? std::string("-") : vh::quote(e.sync.str()))
                       << " assign=" << (e.assign.empty() ? std::string("-") : vh::quote(e.assign.str()))
-                      << " prob=" << (e.prob.empty() ? std::string("-") : vh::quote(e.prob.str())) << "\n";
+                      << " prob=" << (e.prob.empty() ? std::string("-") : vh::quote(e.prob.str()));
+            // the synchronisation once more, taken apart: the direction the edge holds and the text of the channel expression
+            // (the specification composes the label from these two, whatever a SYNC node prints as)
+            const bool isSync = !e.sync.empty() && e.sync.get_kind() == SYNC && e.sync.get_size() == 1;
+            std::cout << " syncdir=" << (!isSync ? "-" : e.sync.get_sync() == SYNC_QUE ? "?" : e.sync.get_sync() == SYNC_BANG ? "!" : "csp")
+                      << " syncchan=" << (!isSync ? std::string("-") : vh::quote(e.sync[0].str())) << "\n";
         }
     }
     // the system line: per process whether it is a template itself and which of its parameters are bound
@@ -448,7 +482,7 @@ int main(int argc, char** argv)
         std::cin.read(&text[0], n);
         std::cin.get();
         std::cout << "BEGIN " << id << " " << op << "\n";
-        if (op == "xml" || op == "xta" || op == "xml0" || op == "xta0") opParse(op, text);
+        if (isParseOp(op)) opParse(op, text);
         else if (op == "ratedec") opRateDec(text);
         else if (op == "write" || op == "writeL") {
             // the writer is known to crash on some documents: run it in a child so that one crash costs one case
